@@ -187,7 +187,7 @@ Definition ex_ops : list hop := [
 Example C05_history_nonvacuous :
   h_snaps (run_hist ex_ops) = [(2, "metadata/manifests/l2")]
   /\ map fst (h_store (run_hist ex_ops)) =
-       ["metadata/inflight/t.inflight"; "data/t"; "data/b"; "metadata/manifests/m2"; "metadata/manifests/l2"; "data/a"; "metadata/manifests/m1"].
+       ["metadata/inflight/data/t.inflight"; "data/t"; "data/b"; "metadata/manifests/m2"; "metadata/manifests/l2"; "data/a"; "metadata/manifests/m1"].
 Proof. split; vm_compute; reflexivity. Qed.
 
 (* Non-vacuity of C05_acceptance_regenerated: the three canonical spellings of a file under data/ (and below it) are accepted;
